@@ -402,7 +402,9 @@ def tri2_mesh(m, atm=0, rot=0):
 def lattice_mesh(kind, atm=0):
     m = core.repo_modules("mulgrids")
     with core.quiet():
-        if kind == "2x2":
+        if kind == "2sq":       # the mesh of MC_MulgridADT's MCInit: two squares side by side, two layers
+            geo = m.mulgrid().rectangular([10.0, 10.0], [10.0], [10.0, 10.0], atmos_type=atm)
+        elif kind == "2x2":
             geo = m.mulgrid().rectangular([10.0, 10.0], [10.0, 10.0], [10.0, 20.0], atmos_type=atm)
         elif kind == "3x2":
             geo = m.mulgrid().rectangular([10.0, 20.0, 10.0], [10.0, 10.0], [10.0, 10.0], atmos_type=atm)
